@@ -114,11 +114,70 @@ def lookup (tab : List (Nat × Nat)) (x : Nat) : Option Nat :=
   | none => none
   | some r => if r.2 then (categoriesVec tab)[r.1 + 1]? else (categoriesVec tab)[r.1]?
 
-/-! ## definition file parser (`read_character_definition`) -/
+/-! ## `CharacterCategory::iter()` (`CharCategoryIter::next`)
+
+Items are `(start, end, classes)` of the half-open `Range<char>` `start..end`.  With the paired table
+`[(b₀,c₀), …, (bₙ₋₁,cₙ₋₁)]` (`cᵢ = categories[i]`, `categories[n] = DEFAULT`) the iterator yields, for
+`current = 0, 1, …, n`:
+```text
+current == len      : (char(boundaries.last().unwrap()) .. char::MAX, *categories.last().unwrap())
+current == 0        : (0 .. char(boundaries[0]),                       categories[0])
+otherwise           : (char(boundaries[current-1]) .. char(boundaries[current]), categories[current])
+```
+`none` = a panic: the first branch is tested first, so on the EMPTY table (`len == 0`, a definition
+without any range line) `current == 0 == len` takes `boundaries.last().unwrap()` on an empty vector;
+`char::from_u32(..).unwrap()` panics on a boundary that is not a scalar value. -/
+
+/-- `char::from_u32(n).is_some()` -/
+def isScalar (n : Nat) : Bool := n < 0xD800 || (0xE000 ≤ n && n ≤ 0x10FFFF)
+
+/-- `char::MAX as u32` -/
+def charMax : Nat := 0x10FFFF
+
+/-- the items for `current = k+1, …, len`, `prev = boundaries[k]` -/
+def iterGo (prev : Nat) : List (Nat × Nat) → Option (List (Nat × Nat × Nat))
+  | [] => if isScalar prev then some [(prev, charMax, DEFAULT)] else none
+  | (b, c) :: rest =>
+    if isScalar prev && isScalar b then (iterGo b rest).map ((prev, b, c) :: ·) else none
+
+def iterRanges : List (Nat × Nat) → Option (List (Nat × Nat × Nat))
+  | [] => none
+  | (b, c) :: rest => if isScalar b then (iterGo b rest).map ((0, b, c) :: ·) else none
+
+/-- The two `CharCategoryIter::next` in use: `cur` = the pinned code (panics on the table without
+boundaries), `fix` = the delivered repair `fix_iter_empty.patch` (one range `0..char::MAX` with
+`categories[0]`).  The harness probes `CharacterCategory::default().iter().next()` of the tree it is
+linked against and names the variant on every case line (`itv=`). -/
+inductive IterV where
+  | cur | fix
+deriving Repr, DecidableEq
+
+def iterRangesV : IterV → List (Nat × Nat) → Option (List (Nat × Nat × Nat))
+  | .fix, [] => some [(0, charMax, DEFAULT)]
+  | _, tab => iterRanges tab
+
+/-! ## definition file reader (`from_reader` / `read_character_definition`)
+
+Transcribed piece by piece: `BufRead::lines` (segmentation at `\n`, UTF-8 validation of every segment,
+one `\r` removed before a removed `\n`), `str::trim` / `split_whitespace` (Unicode `White_Space`),
+`str::split("..")`, `trim_start_matches("0x")`, `u32::from_str_radix(_, 16)` (rustc 1.95.0
+`from_ascii_radix`: optional `+`, error kinds), the `+ 1` that overflows in a debug build,
+the three range checks, `take_while` not-a-comment, and `CategoryType::from_str` =
+`bitflags::parser::from_str` (bitflags 2.5: `|`-separated names or `0x` hex numbers, unknown bits kept). -/
+
+/-- `core::num::IntErrorKind` as produced by `u32::from_str_radix` -/
+inductive IntErr where
+  | empty | invalidDigit | posOverflow
+deriving Repr, DecidableEq
 
 inductive LoadErr where
-  | invalidFormat | invalidChar | invalidType | parseInt
+  | io                              -- `line?`: the segment is not valid UTF-8
+  | invalidFormat                   -- `Error::InvalidFormat(i)`
+  | invalidChar (c : Nat)           -- `Error::InvalidChar(c, i)`
+  | invalidType (elem : List Char)  -- `Error::InvalidCategoryType(i, elem)`
+  | parseInt (k : IntErr)           -- `SudachiError::ParseIntError`
   | panicOverflow     -- `u32 + 1` on 0xFFFFFFFF: `attempt to add with overflow` (debug build)
+  | panicUnreachable  -- `r[0]` on an empty vector / `chars().next().unwrap()` on an empty column: proved unreachable
 deriving Repr, DecidableEq
 
 def catNames : List (String × Nat) :=
@@ -127,18 +186,39 @@ def catNames : List (String × Nat) :=
    ("USER1", 2048), ("USER2", 4096), ("USER3", 8192), ("USER4", 16384),
    ("NOOOVBOW", 1073741824), ("NOOOVBOW2", 2147483648), ("ALL", 1073741823)]
 
+/-- `Flags::from_name`: the declared constants in declaration order, exact (case-sensitive) match -/
 def catOfName? (s : List Char) : Option Nat :=
   (catNames.find? (fun p => p.1.toList = s)).map (·.2)
 
-/-- `char::from_u32(n).is_some()` -/
-def isScalar (n : Nat) : Bool := n < 0xD800 || (0xE000 ≤ n && n ≤ 0x10FFFF)
+/-- `char::is_whitespace` (Unicode `White_Space`) -/
+def isWhite (c : Char) : Bool :=
+  let n := c.toNat
+  (9 ≤ n && n ≤ 13) || n = 0x20 || n = 0x85 || n = 0xA0 || n = 0x1680 || (0x2000 ≤ n && n ≤ 0x200A) ||
+  n = 0x2028 || n = 0x2029 || n = 0x202F || n = 0x205F || n = 0x3000
+
+def trimStart : List Char → List Char
+  | [] => []
+  | c :: cs => if isWhite c then trimStart cs else c :: cs
+
+/-- `str::trim` -/
+def trim (s : List Char) : List Char := (trimStart (trimStart s).reverse).reverse
+
+/-- `str::split_whitespace` -/
+def splitWhitespace (s : List Char) : List (List Char) :=
+  (go s [] []).reverse
+where
+  go : List Char → List Char → List (List Char) → List (List Char)
+    | [], cur, acc => if cur.isEmpty then acc else cur.reverse :: acc
+    | c :: cs, cur, acc =>
+      if isWhite c then (if cur.isEmpty then go cs [] acc else go cs [] (cur.reverse :: acc))
+      else go cs (c :: cur) acc
 
 /-- `trim_start_matches("0x")` -/
 def stripAll0x : List Char → List Char
   | '0' :: 'x' :: rest => stripAll0x rest
   | s => s
 
-/-- split on the two-character separator `..` -/
+/-- `str::split("..")`: non-overlapping matches of the two-character separator, left to right -/
 def splitDotDot (s : List Char) : List (List Char) :=
   (go s [] []).reverse
 where
@@ -147,59 +227,182 @@ where
     | '.' :: '.' :: rest, cur, acc => go rest [] (cur.reverse :: acc)
     | c :: rest, cur, acc => go rest (c :: cur) acc
 
-def u32hex? (s : List Char) : Option Nat :=
-  match Wire.hex? (stripAll0x s) with
-  | some n => if n < 4294967296 then some n else none
-  | none => none
+/-- the digit loop of `from_ascii_radix` (radix 16, `u32`): `to_digit` first (`InvalidDigit`), then
+`checked_mul`, then `checked_add` (`PosOverflow`).  For at most 8 digits the standard library runs the
+same loop without the checks (`can_not_overflow`); there the checks below cannot fire. -/
+def radixGo : List Char → Nat → Except IntErr Nat
+  | [], acc => .ok acc
+  | c :: cs, acc =>
+    match Wire.hexDigitVal? c with
+    | none => .error .invalidDigit
+    | some d =>
+      if acc * 16 ≥ 4294967296 then .error .posOverflow
+      else if acc * 16 + d ≥ 4294967296 then .error .posOverflow
+      else radixGo cs (acc * 16 + d)
 
+/-- `u32::from_str_radix(s, 16)` -/
+def u32FromStrRadix16 (s : List Char) : Except IntErr Nat :=
+  match s with
+  | [] => .error .empty
+  | ['+'] => .error .invalidDigit
+  | ['-'] => .error .invalidDigit
+  | '+' :: rest => radixGo rest 0
+  | _ => radixGo s 0
+
+/-- the loop of `bitflags::parser::from_str` over the `|`-separated parts -/
+def flagsGo : List (List Char) → Nat → Option Nat
+  | [], acc => some acc
+  | f :: fs, acc =>
+    let f := trim f
+    if f.isEmpty then none            -- `ParseError::empty_flag()`
+    else match Wire.stripPrefix? ['0', 'x'] f with
+      | some h =>                     -- `from_bits_retain(parse_hex(h))`
+        match u32FromStrRadix16 h with
+        | .ok bits => flagsGo fs (acc ||| bits)
+        | .error _ => none
+      | none =>
+        match catOfName? f with
+        | some c => flagsGo fs (acc ||| c)
+        | none => none
+
+/-- `CategoryType::from_str` = `bitflags::parser::from_str::<CategoryType>` -/
+def categoryFromStr (s : List Char) : Option Nat :=
+  if (trim s).isEmpty then some 0 else flagsGo (Wire.splitOn '|' s) 0
+
+/-- `cols[1..].iter().take_while(|e| e.chars().next().unwrap() != '#')` + `insert(elem.parse()?)` -/
 def parseCats : List (List Char) → Nat → Except LoadErr Nat
   | [], acc => .ok acc
   | w :: ws, acc =>
     match w with
+    | [] => .error .panicUnreachable
     | '#' :: _ => .ok acc
-    | _ => match catOfName? w with
+    | _ => match categoryFromStr w with
       | some c => parseCats ws (acc ||| c)
-      | none => .error .invalidType
+      | none => .error (.invalidType w)
 
-/-- one line: `none` = skipped line -/
+def parseHexField (s : List Char) : Except LoadErr Nat :=
+  match u32FromStrRadix16 (stripAll0x s) with
+  | .error k => .error (.parseInt k)
+  | .ok n => .ok n
+
+/-- the body of the `for` loop for one (already decoded) line: `none` = `continue` -/
 def parseLine (line : List Char) : Except LoadErr (Option CatRange) :=
-  let cols := Wire.words line
-  match cols with
-  | [] => .ok none
-  | c0 :: rest =>
-    if !(c0.take 2 == ['0', 'x']) then .ok none
-    else if rest.isEmpty then .error .invalidFormat
-    else
-      let r := splitDotDot c0
-      match r with
-      | [] => .error .invalidFormat
+  let line := trim line
+  if line.isEmpty || line.head? == some '#' || !(line.take 2 == ['0', 'x']) then .ok none
+  else
+    match splitWhitespace line with
+    | [] => .error .invalidFormat
+    | [_] => .error .invalidFormat
+    | c0 :: rest =>
+      match splitDotDot c0 with
+      | [] => .error .panicUnreachable
       | r0 :: rr =>
-        match u32hex? r0 with
-        | none => .error .parseInt
-        | some b =>
-          let e? : Option Nat := match rr with
-            | [] => some (b + 1)
-            | r1 :: _ => (u32hex? r1).map (· + 1)
+        match parseHexField r0 with
+        | .error er => .error er
+        | .ok b =>
+          let e? : Except LoadErr Nat := match rr with
+            | [] => .ok (b + 1)
+            | r1 :: _ => match parseHexField r1 with
+              | .error er => .error er
+              | .ok n => .ok (n + 1)
           match e? with
-          | none => .error .parseInt
-          | some e =>
+          | .error er => .error er
+          | .ok e =>
             if e ≥ 4294967296 then .error .panicOverflow
             else if b ≥ e then .error .invalidFormat
-            else if !isScalar b then .error .invalidChar
-            else if !isScalar e then .error .invalidChar
+            else if !isScalar b then .error (.invalidChar b)
+            else if !isScalar e then .error (.invalidChar e)
             else match parseCats rest 0 with
               | .error er => .error er
               | .ok c => .ok (some ⟨b, e, c⟩)
 
-def parseLines : List (List Char) → Except LoadErr (List CatRange)
+/-- the loop over decoded lines; the error carries the 0-based line number `i` of `enumerate()` -/
+def parseLinesFrom (i : Nat) : List (List Char) → Except (Nat × LoadErr) (List CatRange)
   | [] => .ok []
   | l :: ls =>
     match parseLine l with
-    | .error e => .error e
-    | .ok none => parseLines ls
-    | .ok (some r) => match parseLines ls with
+    | .error e => .error (i, e)
+    | .ok none => parseLinesFrom (i + 1) ls
+    | .ok (some r) => match parseLinesFrom (i + 1) ls with
       | .error e => .error e
       | .ok rs => .ok (r :: rs)
+
+def parseLines (ls : List (List Char)) : Except (Nat × LoadErr) (List CatRange) := parseLinesFrom 0 ls
+
+/-! ### bytes to lines: `BufRead::lines` -/
+
+/-- segments of `read_until(b'\n')`: the flag says that the segment was terminated by `\n`
+(a last segment without `\n` is yielded only when it is not empty) -/
+def splitSegments (bs : List Nat) : List (List Nat × Bool) :=
+  go bs []
+where
+  go : List Nat → List Nat → List (List Nat × Bool)
+    | [], cur => if cur.isEmpty then [] else [(cur.reverse, false)]
+    | b :: rest, cur => if b = 10 then (cur.reverse, true) :: go rest [] else go rest (b :: cur)
+
+def isCont (b : Nat) : Bool := 0x80 ≤ b && b ≤ 0xBF
+
+/-- `core::str::from_utf8` (validation as in `run_utf8_validation`: shortest form, no surrogates,
+at most U+10FFFF) followed by decoding; `none` = `Utf8Error` -/
+def utf8Strict : List Nat → Option (List Nat)
+  | [] => some []
+  | b0 :: rest =>
+    if b0 < 0x80 then (utf8Strict rest).map (b0 :: ·)
+    else if b0 < 0xC2 then none
+    else if b0 < 0xE0 then
+      match rest with
+      | b1 :: r => if isCont b1 then (utf8Strict r).map (((b0 - 0xC0) * 64 + (b1 - 0x80)) :: ·) else none
+      | _ => none
+    else if b0 < 0xF0 then
+      match rest with
+      | b1 :: b2 :: r =>
+        let ok1 := if b0 = 0xE0 then 0xA0 ≤ b1 && b1 ≤ 0xBF
+                   else if b0 = 0xED then 0x80 ≤ b1 && b1 ≤ 0x9F else isCont b1
+        if ok1 && isCont b2 then
+          (utf8Strict r).map (((b0 - 0xE0) * 4096 + (b1 - 0x80) * 64 + (b2 - 0x80)) :: ·)
+        else none
+      | _ => none
+    else if b0 < 0xF5 then
+      match rest with
+      | b1 :: b2 :: b3 :: r =>
+        let ok1 := if b0 = 0xF0 then 0x90 ≤ b1 && b1 ≤ 0xBF
+                   else if b0 = 0xF4 then 0x80 ≤ b1 && b1 ≤ 0x8F else isCont b1
+        if ok1 && isCont b2 && isCont b3 then
+          (utf8Strict r).map (((b0 - 0xF0) * 262144 + (b1 - 0x80) * 4096 + (b2 - 0x80) * 64 + (b3 - 0x80)) :: ·)
+        else none
+      | _ => none
+    else none
+
+def dropLastCR (s : List Char) : List Char :=
+  match s.reverse with
+  | '\r' :: r => r.reverse
+  | _ => s
+
+/-- one item of `lines()`: validate, drop the `\n` (already cut) and one `\r` before it -/
+def decodeSegment (seg : List Nat × Bool) : Option (List Char) :=
+  match utf8Strict seg.1 with
+  | none => none
+  | some cps =>
+    let s := cps.map Char.ofNat
+    some (if seg.2 then dropLastCR s else s)
+
+/-- `read_character_definition` over the segments: decoding and parsing interleave (the iterator is
+lazy), so the FIRST failing line decides, whether it is not UTF-8 or not well-formed -/
+def readFrom (i : Nat) : List (List Nat × Bool) → Except (Nat × LoadErr) (List CatRange)
+  | [] => .ok []
+  | seg :: segs =>
+    match decodeSegment seg with
+    | none => .error (i, .io)
+    | some l =>
+      match parseLine l with
+      | .error e => .error (i, e)
+      | .ok none => readFrom (i + 1) segs
+      | .ok (some r) => match readFrom (i + 1) segs with
+        | .error e => .error e
+        | .ok rs => .ok (r :: rs)
+
+/-- `CharacterCategory::read_character_definition(bytes)` -/
+def readDef (bytes : List Nat) : Except (Nat × LoadErr) (List CatRange) := readFrom 0 (splitSegments bytes)
 
 /-! ## driver entry -/
 
@@ -209,19 +412,34 @@ def showTab (tab : List (Nat × Nat)) : String :=
 def showOptNats (l : List (Option Nat)) : String :=
   Wire.joinWith "," (l.map (fun o => match o with | some n => toString n | none => "OOB"))
 
+def showIter : Option (List (Nat × Nat × Nat)) → String
+  | none => "PANIC"
+  | some items => Wire.joinWith "," (items.map (fun t => toString t.1 ++ ":" ++ toString t.2.1 ++ ":" ++ toString t.2.2))
+
+def showIntErr : IntErr → String
+  | .empty => "Empty" | .invalidDigit => "InvalidDigit" | .posOverflow => "PosOverflow"
+
+def showErr (i : Nat) : LoadErr → String
+  | .io => "err:Io"
+  | .invalidFormat => "err:InvalidFormat:" ++ toString i
+  | .invalidChar c => "err:InvalidChar:" ++ toString c ++ ":" ++ toString i
+  | .invalidType w => "err:InvalidType:" ++ toString i ++ ":" ++ Wire.joinWith "." (w.map (fun c => toString c.toNat))
+  | .parseInt k => "err:ParseInt:" ++ showIntErr k
+  | .panicOverflow => "PANIC"
+  | .panicUnreachable => "PANIC"
+
 /-- `C17 chardef def=<hex of file> probe=<nat list>` -/
 def handle (toks : List (List Char)) : String :=
   match Wire.kv? toks "def", Wire.kv? toks "probe" with
   | some d, some p =>
     match Wire.hexBytes? d, Wire.natList? p with
     | some bytes, some probes =>
-      let text := bytes.map Char.ofNat
-      match parseLines (Wire.splitOn '\n' text) with
-      | .error .panicOverflow => "PANIC"
-      | .error _ => "err"
+      match readDef bytes with
+      | .error (i, e) => showErr i e
       | .ok rs =>
         let tab := compile rs
-        "ok tab=" ++ showTab tab ++ " last=" ++ toString DEFAULT ++ " cats=" ++ showOptNats (probes.map (lookup tab))
+        let v := if Wire.kv? toks "itv" == some "fix".toList then IterV.fix else IterV.cur
+        "ok iter=" ++ showIter (iterRangesV v tab) ++ " cats=" ++ showOptNats (probes.map (lookup tab))
     | _, _ => "bad-op"
   | _, _ => "bad-op"
 
